@@ -550,15 +550,21 @@ def _fork(s):
 
 
 def _try_expr(st, s, where):
-    """try: return A  except [T]: return B   ->   __try__(A, B)  (B taken when the lookup misses)"""
-    ok = (
-        len(st.body) == 1 and isinstance(st.body[0], ast.Return) and st.body[0].value is not None
-        and len(st.handlers) == 1 and not st.orelse and not st.finalbody
-        and len(st.handlers[0].body) == 1 and isinstance(st.handlers[0].body[0], ast.Return)
-        and st.handlers[0].body[0].value is not None
-    )
-    if not ok:
-        raise AnalysisError("%s: try statement at line %d is not `try: return A / except: return B`" % (where, st.lineno))
+    """try: return A  except [T]: return B   ->   ('return', __try__(A, B))   (B taken when the lookup misses)
+       try: X = A     except [T]: X = B      ->   ('assign:X', __try__(A, B))"""
+    base = len(st.handlers) == 1 and not st.orelse and not st.finalbody and len(st.body) == 1 and len(st.handlers[0].body) == 1
+    b0 = st.body[0] if base else None
+    h0 = st.handlers[0].body[0] if base else None
+    kind = None
+    if base and isinstance(b0, ast.Return) and b0.value is not None and isinstance(h0, ast.Return) and h0.value is not None:
+        kind = "return"
+    elif (
+        base and isinstance(b0, ast.Assign) and isinstance(h0, ast.Assign) and len(b0.targets) == 1 and len(h0.targets) == 1
+        and isinstance(b0.targets[0], ast.Name) and isinstance(h0.targets[0], ast.Name) and b0.targets[0].id == h0.targets[0].id
+    ):
+        kind = "assign:" + b0.targets[0].id
+    if kind is None:
+        raise AnalysisError("%s: try statement at line %d is neither `try: return A / except: return B` nor `try: X = A / except: X = B`" % (where, st.lineno))
     h = st.handlers[0]
     if h.type is None:
         tname = None
@@ -571,7 +577,7 @@ def _try_expr(st, s, where):
     body = subst(st.body[0].value, s["env"], s["fns"], where)
     handler = subst(h.body[0].value, s["env"], s["fns"], where)
     catches = ast.Constant(value=tname in CATCHES_KEYERROR)
-    return ast.Call(func=ast.Name(id=TRY, ctx=ast.Load()), args=[body, handler, catches], keywords=[])
+    return kind, ast.Call(func=ast.Name(id=TRY, ctx=ast.Load()), args=[body, handler, catches], keywords=[])
 
 
 def exec_block(stmts, states, where):
@@ -619,8 +625,13 @@ def exec_block(stmts, states, where):
                 s["env"].pop(st.name, None)
                 nxt.append(s)
             elif isinstance(st, ast.Try):
-                s["ret"] = _try_expr(st, s, where)
-                s["done"] = True
+                kind, texpr = _try_expr(st, s, where)
+                if kind == "return":
+                    s["ret"] = texpr
+                    s["done"] = True
+                else:
+                    s["env"][kind.split(":", 1)[1]] = texpr
+                    s["fns"].pop(kind.split(":", 1)[1], None)
                 nxt.append(s)
             else:
                 raise AnalysisError("%s: statement `%s` (line %d) not modelled" % (where, type(st).__name__, st.lineno))
